@@ -1,8 +1,11 @@
--- GENERATED by tools/c2lean.py from librfn/rotenc.c -- do not edit; rewritten on every check run
+/-! Reference definitions for C19 (hand-maintained, NOT regenerated): the first-generation translation of the pinned
+`librfn/rotenc.c`, frozen.  The C19 theorems are about these; `Props/C19Tie.lean` proves, on every run, that the definitions
+regenerated from the current source (`Gen/RotencSeq.lean`, tools/c2lean2.py) compute the same function (bv_decide), so a
+rewrite of rotenc.c that keeps the behaviour re-proves and one that changes it yields a falsifying input. -/
 set_option linter.unusedVariables false
-namespace Librfn.Gen.Rotenc
+namespace Librfn.Ref.Rotenc
 
-/-- generated from `rotenc_decode` -/
+/-- frozen translation of `rotenc_decode` -/
 def rotenc_decode (r_last_state : BitVec 8) (r_count : BitVec 16) (r_internal_count : BitVec 16) (state : BitVec 8) :=
   let fromto_1 := (BitVec.setWidth 8 (((BitVec.setWidth 32 r_last_state) <<< (2#32).toNat) + (BitVec.setWidth 32 state)))
   let sw_2 := (BitVec.setWidth 32 fromto_1)
@@ -18,14 +21,14 @@ def rotenc_decode (r_last_state : BitVec 8) (r_count : BitVec 16) (r_internal_co
   let r_count_12 := (if c_10 then r_count_11 else r_count)
   (r_last_state_9, r_count_12, r_internal_count_8)
 
-/-- generated from `rotenc_count14` -/
+/-- frozen translation of `rotenc_count14` -/
 def rotenc_count14 (r_last_state : BitVec 8) (r_count : BitVec 16) (r_internal_count : BitVec 16) :=
   let ret_1 := (BitVec.setWidth 16 ((BitVec.setWidth 32 r_count) &&& 16383#32))
   (ret_1, r_last_state, r_count, r_internal_count)
 
-/-- generated from `rotenc_count` -/
+/-- frozen translation of `rotenc_count` -/
 def rotenc_count (r_last_state : BitVec 8) (r_count : BitVec 16) (r_internal_count : BitVec 16) :=
   let ret_1 := (BitVec.setWidth 8 r_count)
   (ret_1, r_last_state, r_count, r_internal_count)
 
-end Librfn.Gen.Rotenc
+end Librfn.Ref.Rotenc
